@@ -970,6 +970,9 @@ func (d *drv) datasetCase(ds *ld.RDFDataset, hi int, in failInput, nOrders int) 
 		// observation, not a violation: only the message of the error depends on map order
 		d.rep.Count("observation:error-message-depends-on-map-order")
 	}
+	if nOrders > 1 && d.rng.Intn(2) == 0 {
+		d.labelsCase(ds, hi, ref)
+	}
 	names := mzrun.GraphOrder(ds, nil)
 	orders := [][]string{names}
 	if nOrders > 1 {
@@ -987,6 +990,83 @@ func (d *drv) datasetCase(ds *ld.RDFDataset, hi int, in failInput, nOrders int) 
 		ci.Order = ord
 		d.cases = append(d.cases, &rcase{ds: ds, order: ord, prime: h.Prime(), views: views, out: out, input: ci})
 	}
+}
+
+// renameDS renames the blank-node labels of a dataset by a random injective map that is
+// monotone (byte-wise order) on the labels used as GRAPH NAMES and arbitrary on all other
+// labels; "@default" and "" are fixed; IRIs, literals and quad positions are untouched
+// (Properties/C03.v C03_labels).
+func renameDS(rng *rand.Rand, ds *ld.RDFDataset) *ld.RDFDataset {
+	var gnames []string
+	for g := range ds.Graphs {
+		if g != "@default" && g != "" && strings.HasPrefix(g, "_:") {
+			gnames = append(gnames, g)
+		}
+	}
+	sort.Strings(gnames)
+	m := map[string]string{}
+	acc := 0
+	for _, g := range gnames {
+		acc += 1 + rng.Intn(1000)
+		m[g] = fmt.Sprintf("_:g%08d%c", acc, 'a'+rune(rng.Intn(26)))
+	}
+	n := 0
+	lab := func(s string) string {
+		if r, ok := m[s]; ok {
+			return r
+		}
+		n++
+		r := fmt.Sprintf("_:n%d_%d", rng.Intn(100000), n)
+		m[s] = r
+		return r
+	}
+	node := func(x ld.Node) ld.Node {
+		if b, ok := x.(*ld.BlankNode); ok && b != nil {
+			return ld.NewBlankNode(lab(b.Attribute))
+		}
+		return x
+	}
+	out := ld.NewRDFDataset()
+	delete(out.Graphs, "@default")
+	for g := range ds.Graphs {
+		ng := g
+		if r, ok := m[g]; ok {
+			ng = r
+		}
+		out.Graphs[ng] = []*ld.Quad{}
+	}
+	// deterministic traversal (sorted keys) so that the PRNG use is reproducible
+	keys := mzrun.GraphOrder(ds, nil)
+	for _, g := range keys {
+		ng := g
+		if r, ok := m[g]; ok {
+			ng = r
+		}
+		for _, q := range ds.Graphs[g] {
+			nq := &ld.Quad{Subject: node(q.Subject), Predicate: node(q.Predicate), Object: node(q.Object)}
+			if q.Graph != nil {
+				nq.Graph = node(q.Graph)
+			}
+			out.Graphs[ng] = append(out.Graphs[ng], nq)
+		}
+	}
+	return out
+}
+
+// labelsCase: blank-node labels renamed (monotone on graph names only): same outcome, and
+// the model agrees with the implementation on the renamed dataset as well.
+func (d *drv) labelsCase(ds *ld.RDFDataset, hi int, ref string) {
+	h := d.hs[hi]
+	rds := renameDS(d.rng, ds)
+	rv, ro := mzrun.Entries(rds, h)
+	d.rep.Evaluations++
+	d.rep.Count("labels-renamed:" + ro.Class)
+	if r := renderOutcome(rv, ro); r != ref {
+		ri := failInput{Kind: "dataset", Class: "c03-labels", Hasher: hi, Dataset: dumpDS(ds), Note: "renamed: " + jsonOf(dumpDS(rds))}
+		d.fail(fmt.Sprintf("renaming the blank-node labels (monotone on graph names) changes the outcome of EntriesFromRDF: %q vs %q", r, ref), ri)
+	}
+	d.cases = append(d.cases, &rcase{ds: rds, order: mzrun.GraphOrder(rds, d.rng.Shuffle), prime: h.Prime(), views: rv, out: ro,
+		input: failInput{Kind: "dataset", Hasher: hi, Dataset: dumpDS(rds), Note: "labels-renamed"}})
 }
 
 // witness replays RDF.Order.bad_ds (the refutation witness of "literally the same outcome
@@ -1263,6 +1343,9 @@ func (d *drv) replay(path string) error {
 		d.datasetCase(ds, in.Hasher, failInput{Kind: "dataset", Hasher: in.Hasher}, 4)
 		d.treeCase(ds, in.Hasher, failInput{Kind: "dataset", Hasher: in.Hasher, Dataset: dumpDS(ds)}, "", 3)
 		vs, o := mzrun.Entries(ds, d.hs[in.Hasher])
+		for i := 0; i < 5 && len(d.rep.fails) == 0; i++ {
+			d.labelsCase(ds, in.Hasher, renderOutcome(vs, o))
+		}
 		fmt.Printf("replay: dataset: %s\n", renderOutcome(vs, o))
 	case "doc-dataset":
 		ds, err := mzrun.Normalize([]byte(in.Doc), d.loader, true)
